@@ -40,28 +40,29 @@ fn active(f: &NetworkFilter, tag_a_enabled: bool) -> bool {
 /// not executed), real select + fusion + per-rule matcher: the fused rule is active-and-matching iff some
 /// member is.
 fn fuse_kernel<const PN: usize, const UN: usize>() {
-    let b1: [u8; PN] = crate::verif_shim::any_bytes::<PN>();
-    let l1: usize = kani::any();
-    let b2: [u8; PN] = crate::verif_shim::any_bytes::<PN>();
-    let l2: usize = kani::any();
-    let ub: [u8; UN] = crate::verif_shim::any_bytes::<UN>();
-    let ul: usize = kani::any();
+    let mut dr = crate::verif_shim::Draw::new();
+    let b1: [u8; PN] = dr.bytes::<PN>();
+    let l1: usize = dr.usize();
+    let b2: [u8; PN] = dr.bytes::<PN>();
+    let l2: usize = dr.usize();
+    let ub: [u8; UN] = dr.bytes::<UN>();
+    let ul: usize = dr.usize();
     let p1 = sym_ascii(&b1, l1);
     let p2 = sym_ascii(&b2, l2);
     let u = sym_ascii(&ub, ul);
-    let (e1, e2): (bool, bool) = (kani::any(), kani::any());
+    let (e1, e2): (bool, bool) = (dr.bool(), dr.bool());
     kani::assume(l1 >= 1 && l2 >= 1);
-    let mask = NetworkFilterMask::from_bits_retain(kani::any::<u32>() & !KIND);
-    let (t1, t2): (bool, bool) = (kani::any(), kani::any());
+    let mask = NetworkFilterMask::from_bits_retain(dr.u32() & !KIND);
+    let (t1, t2): (bool, bool) = (dr.bool(), dr.bool());
     let f1 = mk(mask, p1, e1, t1, 1);
     let f2 = mk(mask, p2, e2, t2, 2);
-    let rt = if kani::any() { crate::request::RequestType::Script } else { crate::request::RequestType::Document };
+    let rt = if dr.bool() { crate::request::RequestType::Script } else { crate::request::RequestType::Document };
     let req = crate::request::Request {
         request_type: rt,
         is_http: false,
         is_https: true,
         is_supported: true,
-        is_third_party: kani::any(),
+        is_third_party: dr.bool(),
         url: String::from(u),
         hostname: String::new(),
         source_hostname_hashes: None,
@@ -70,7 +71,7 @@ fn fuse_kernel<const PN: usize, const UN: usize>() {
         original_url: String::new(),
     };
     let mut rm = RegexManager::default();
-    let tag_on: bool = kani::any();
+    let tag_on: bool = dr.bool();
     let m1 = f1.matches(&req, &mut rm);
     let m2 = f2.matches(&req, &mut rm);
     let want = (m1 && active(&f1, tag_on)) || (m2 && active(&f2, tag_on));
